@@ -849,6 +849,17 @@ class Executor:
             self.list_set_len(st, lst, z3.If(n > 0, n, 0))
             return lst
         # sequence concatenation
+        from .core import View as _View
+        if isinstance(op, ast.Add) and (isinstance(l, _View) or isinstance(r, _View)):
+            want = getattr(self, "expect_type", None)
+            other = r if isinstance(l, _View) else l
+            t = want if isinstance(want, Seq) else (other.t if isinstance(other, Val) and isinstance(other.t, Seq) else None)
+            if t is None:
+                raise Untranslatable("concatenation of generators of unknown element type")
+            if isinstance(l, _View):
+                l = self.materialise(l, st, t.elt)
+            if isinstance(r, _View):
+                r = self.materialise(r, st, t.elt)
         lt = l.t if isinstance(l, Val) else None
         rt = r.t if isinstance(r, Val) else None
         if isinstance(op, ast.Add) and (isinstance(l, PyTuple) or isinstance(lt, Seq)) \
